@@ -347,7 +347,7 @@ func init() {
 	}
 }
 
-// TestC19BigBuffer: more than 2 GiB BUFFERED at once (BufferSize 2^31 + 64 KiB,
+// TestC19BigBuffer: more than 2 GiB BUFFERED at once (BufferSize 2^31 + 128 KiB,
 // handed over with Reset so that the parser adopts the slice): a run of one
 // byte, skipped with Parse(nil) up to a little behind buffer position 2^31,
 // then parsed in small blocks. The blocks behind 2^31 lie inside the run and
@@ -400,7 +400,10 @@ func checkBigBuffer(c bigBufferCase) (msg string, bad bool) {
 	}()
 	const mark = 1 << 31
 	total := mark + 2*c.Over + c.Beyond
-	cfg := PCfg{Kind: c.Kind, BufferSize: mark + 1<<16, WindowSize: c.Window, BlockSize: 1<<30 + c.Over}
+	cfg := PCfg{Kind: c.Kind, BufferSize: mark + 1<<17, WindowSize: c.Window, BlockSize: 1<<30 + c.Over}
+	if total > cfg.BufferSize {
+		return "", false // not a case: the text does not fit
+	}
 	switch c.Kind {
 	case "DHP", "BDHP":
 		cfg.HashBits1, cfg.HashBits2 = 14, 15
@@ -411,8 +414,8 @@ func checkBigBuffer(c bigBufferCase) (msg string, bad bool) {
 	if err != nil {
 		return "", false
 	}
-	if cap(bigBufferArray) < mark+1<<16+8 {
-		bigBufferArray = make([]byte, mark+1<<16+8)
+	if cap(bigBufferArray) < mark+1<<17+8 {
+		bigBufferArray = make([]byte, mark+1<<17+8)
 	}
 	data := bigBufferArray[:total]
 	if data[0] != c.Byte || data[total-1] != c.Byte {
